@@ -6,4 +6,4 @@ Extraction Language OCaml.
 Extraction "c27_model.ml"
   auth_from_md ct_compare psk_new psk_authenticate psk_class
   oidc_new oidc_authenticate oidc_class accepted validity_of decide property_literal extra_ok
-  no_empty_entries cfg_wf flag_empty_alias flag_empty_subject bmem beqb oidc_run psk_run.
+  cfg_wf bmem beqb oidc_run psk_run.
